@@ -184,15 +184,17 @@ def run(ctx):
     if len(sz) != 1 or len(mk) != 1:
         bad = "size / mask not stored once"
     else:
-        for k in (1, 3, 10):
+        for k in (1, 3, 10, 16, 17, 24, 31):        # the stored values, as converted to the fields' types
             a = atom_from([(isP, k)])
             try:
-                if ev(cr, sz[0].value, a) != 2 ** k or ev(cr, mk[0].value, a) != 2 ** k - 1:
-                    bad = bad or "k=%d: size=%s mask=%s" % (k, ev(cr, sz[0].value, a), ev(cr, mk[0].value, a))
+                if ev(cr, sz[0].node, a) != 2 ** k or ev(cr, mk[0].node, a) != 2 ** k - 1:
+                    bad = bad or "k=%d: stored size=%s mask=%s (need %d / %d)" % (k, ev(cr, sz[0].node, a), ev(cr, mk[0].node, a), 2 ** k, 2 ** k - 1)
             except Unevaluable:
                 bad = bad or "not evaluable"
     o.check(bad is None, "size/mask table", bad, site=cr.loc, construct="ring buffer create")
-    from rules import check_zeroed_alloc
+    from rules import check_zeroed_alloc, check_alloc_size
+    check_alloc_size(ctx, P, "lockfree_ring_buffer_create", R, "create.size",
+                     "a block smaller than the capacity stored in `size` makes every slot access beyond it a heap overflow: items overwrite foreign memory and are overwritten")
     check_zeroed_alloc(ctx, P, "lockfree_ring_buffer_create", "create.zero", "the slots of a new ring buffer",
                        "NULL marks an empty slot: a stale non-NULL word makes trypush fail for ever on a buffer that is not full (a popper seems to be mid-clear)")
     o = ctx.ob("writers", "", "high is modified only by the trypush CAS, low only by the trypop CAS", "a second writer un-claims or double-claims slots")
